@@ -87,6 +87,12 @@ type KindIn struct {
 	Kind string `json:"kind"` // ok | err | nosubmitter | noclient
 }
 
+// LatIn: how long a request to relay Addr takes (milliseconds of fake time).
+type LatIn struct {
+	Addr uint64 `json:"addr"`
+	Ms   uint64 `json:"ms"`
+}
+
 type Op struct {
 	Kind     string      `json:"kind"` // round | forward | prepare
 	Dt       uint64      `json:"dt"`   // whole seconds of (fake) time before the operation, >= 1
@@ -103,6 +109,12 @@ type Op struct {
 	// each validator are what it answered when the service asked (recorded, see OpObs.Resolved)
 	// instead of Vals[].Res / Resolve.
 	RealCfg string `json:"real_cfg,omitempty"`
+	// Peers that behave like real clients: a request to a relay / to node k takes that many
+	// milliseconds and is abandoned (nothing is delivered, the context's error is returned) when the
+	// context it was given is cancelled first.  Missing = 0 = answers at once (the context is still
+	// looked at on entry).
+	RelayLat []LatIn  `json:"relay_lat,omitempty"`
+	NodeLat  []uint64 `json:"node_lat,omitempty"` // round: secondary nodes; prepare: preparer nodes
 }
 
 type ValidatorIn struct {
@@ -164,6 +176,9 @@ type OpObs struct {
 	Relays    []RelayObs   `json:"relays,omitempty"`
 	Nodes     []*[]RegObs  `json:"nodes,omitempty"`
 	PrepNodes []*[]PrepObs `json:"prep_nodes,omitempty"`
+	// requests abandoned because their context was cancelled while they were in flight (or before
+	// they started): "relay:<addr>", "node:<k>", "prepnode:<k>"; nothing was delivered to those peers
+	Aborted []string `json:"aborted,omitempty"`
 	// real configuration: what it answered for each of op.Vals (nil = error) and for the keys of
 	// the forwarded registrations
 	Resolved  []*Resolved `json:"resolved,omitempty"`
@@ -304,6 +319,7 @@ type env struct {
 	relays    map[uint64][]RegObs
 	nodes     []*[]RegObs
 	prepNodes []*[]PrepObs
+	aborted   []string
 	problem   string
 	// real configuration of the current operation and what it answered
 	real      *v2.ExecutionConfig
@@ -323,6 +339,48 @@ func (e *env) note(format string, args ...any) {
 	if e.problem == "" {
 		e.problem = fmt.Sprintf(format, args...)
 	}
+}
+
+// transit is the way of a request to a peer that behaves like a real HTTP client: it is not sent
+// on a context that is already cancelled, it takes ms milliseconds, and it is abandoned when the
+// context is cancelled in the meantime.  nil = the request arrived.
+func (e *env) transit(ctx context.Context, what string, ms uint64) error {
+	err := ctx.Err()
+	if err == nil && ms > 0 {
+		t := time.NewTimer(time.Duration(ms) * time.Millisecond)
+		select {
+		case <-ctx.Done():
+			t.Stop()
+			err = ctx.Err()
+		case <-t.C:
+		}
+	}
+	if err != nil {
+		e.mu.Lock()
+		e.aborted = append(e.aborted, what)
+		e.mu.Unlock()
+	}
+	return err
+}
+
+func (e *env) relayLat(addr uint64) uint64 {
+	e.mu.Lock()
+	defer e.mu.Unlock()
+	for _, l := range e.op.RelayLat {
+		if l.Addr == addr {
+			return l.Ms
+		}
+	}
+	return 0
+}
+
+func (e *env) nodeLat(k int) uint64 {
+	e.mu.Lock()
+	defer e.mu.Unlock()
+	if k < len(e.op.NodeLat) {
+		return e.op.NodeLat[k]
+	}
+	return 0
 }
 
 // -- accounts
@@ -484,8 +542,11 @@ type relaySubmitter struct {
 	fail bool
 }
 
-func (r *relaySubmitter) SubmitValidatorRegistrations(_ context.Context, opts *builderapi.SubmitValidatorRegistrationsOpts) error {
+func (r *relaySubmitter) SubmitValidatorRegistrations(ctx context.Context, opts *builderapi.SubmitValidatorRegistrationsOpts) error {
 	e := r.e
+	if err := e.transit(ctx, fmt.Sprintf("relay:%d", r.id), e.relayLat(r.id)); err != nil {
+		return err
+	}
 	e.mu.Lock()
 	defer e.mu.Unlock()
 	if _, dup := e.relays[r.id]; dup {
@@ -526,8 +587,11 @@ func (n *node) IsSynced() bool  { return true }
 
 type regNode struct{ node }
 
-func (n *regNode) SubmitValidatorRegistrations(_ context.Context, regs []*consensusapi.VersionedSignedValidatorRegistration) error {
+func (n *regNode) SubmitValidatorRegistrations(ctx context.Context, regs []*consensusapi.VersionedSignedValidatorRegistration) error {
 	e := n.e
+	if err := e.transit(ctx, fmt.Sprintf("node:%d", n.idx), e.nodeLat(n.idx)); err != nil {
+		return err
+	}
 	e.mu.Lock()
 	defer e.mu.Unlock()
 	if n.idx >= len(e.nodes) {
@@ -555,8 +619,11 @@ func (n *regNode) SubmitValidatorRegistrations(_ context.Context, regs []*consen
 
 type prepNode struct{ node }
 
-func (n *prepNode) SubmitProposalPreparations(_ context.Context, preps []*consensusapiv1.ProposalPreparation) error {
+func (n *prepNode) SubmitProposalPreparations(ctx context.Context, preps []*consensusapiv1.ProposalPreparation) error {
 	e := n.e
+	if err := e.transit(ctx, fmt.Sprintf("prepnode:%d", n.idx), e.nodeLat(n.idx)); err != nil {
+		return err
+	}
 	e.mu.Lock()
 	defer e.mu.Unlock()
 	if n.idx >= len(e.prepNodes) {
@@ -639,14 +706,32 @@ func runInBubble(t *testing.T, in Input) Obs {
 	cfgPresent := true
 
 	var obs Obs
+	prevStart, settled := e.base, e.base
 	for i := range in.Ops {
 		op := &in.Ops[i]
 		dt := op.Dt
 		if dt == 0 {
 			dt = 1
 		}
-		time.Sleep(time.Duration(dt) * time.Second)
+		// operations start on whole seconds, dt seconds after the previous one started (later if the
+		// previous one's requests took longer than that)
+		start := prevStart.Add(time.Duration(dt) * time.Second)
+		for start.Before(settled) {
+			start = start.Add(time.Second)
+		}
+		time.Sleep(time.Until(start))
 		synctest.Wait()
+		prevStart = start
+		// every request of this operation has been answered or abandoned by then, even if they
+		// are all made one after the other
+		var total uint64
+		for _, l := range op.RelayLat {
+			total += l.Ms
+		}
+		for _, ms := range op.NodeLat {
+			total += ms
+		}
+		settled = start.Add(time.Duration(total)*time.Millisecond + 500*time.Millisecond)
 
 		e.mu.Lock()
 		e.op = op
@@ -654,6 +739,7 @@ func runInBubble(t *testing.T, in Input) Obs {
 		e.relays = map[uint64][]RegObs{}
 		e.nodes = make([]*[]RegObs, in.NNodes)
 		e.prepNodes = make([]*[]PrepObs, in.NPrepNodes)
+		e.aborted = nil
 		now := e.stamp(time.Now())
 		e.real, e.resolved, e.fresolved = nil, map[uint64]*Resolved{}, nil
 		if op.RealCfg != "" {
@@ -741,6 +827,7 @@ func runInBubble(t *testing.T, in Input) Obs {
 		default:
 			return Obs{Problem: "unknown operation kind " + op.Kind}
 		}
+		time.Sleep(time.Until(settled))
 		synctest.Wait()
 
 		e.mu.Lock()
@@ -812,6 +899,11 @@ func runInBubble(t *testing.T, in Input) Obs {
 		}
 		oo.Nodes = e.nodes
 		oo.PrepNodes = e.prepNodes
+		oo.Aborted = append([]string{}, e.aborted...)
+		sort.Strings(oo.Aborted)
+		if len(oo.Aborted) == 0 {
+			oo.Aborted = nil
+		}
 		e.mu.Unlock()
 		obs.Ops = append(obs.Ops, oo)
 	}
